@@ -6,4 +6,5 @@ let table = [
   "comb", Comb.accept;
   "stack", Stack.run_line;
   "timeout", Timeout.accept;
+  "throttle", Throttle.accept;
 ]
